@@ -83,6 +83,16 @@ Theorem isolation_checkPass_ok gauge b rules : in_u32 b ->
   gen_loop 0 0 gauge b rules = check_pass gauge b rules.
 Proof. intros Hb. unfold check_pass. apply gen_loop_ok; exact Hb. Qed.
 
+(* the parameters are positional: pin their NAMES (the struct fields / reads the Go code uses in
+   each position), so that reading another field of the same type in the same place is noticed *)
+Section ParamNames.
+Import Coq.Strings.String.
+Local Open Scope string_scope.
+Local Open Scope list_scope.
+Lemma isolation_checkPass_step_params : LeafParams.isolation_checkPass_step = "batchCount" :: "curCount_in" :: "gauge" :: "rule_MetricType" :: "rule_Threshold" :: nil.
+Proof. reflexivity. Qed.
+End ParamNames.
+
 Print Assumptions isolation_checkPass_step_ok.
 Print Assumptions isolation_checkPass_step_other.
 Print Assumptions isolation_valid_rule_concurrency.
